@@ -16,6 +16,7 @@ MODULES = {
     "C03": "c01_odegen",
     "C04": "c01_odegen",
     "C06": "c06_rates",
+    "C07": "c07_formats",
     "C08": "c08_species",
     "C09": "c09_index",
     "C13": "c13_modifiers",
